@@ -10,6 +10,7 @@ Line record: {"t": text, "role": ..., "type": section type (open/empty),
 roles: key | open | close | empty | define | blank | comment | include | junk
 """
 
+import zlib
 from xml.sax.saxutils import escape
 from xml.sax.saxutils import quoteattr
 
@@ -319,8 +320,14 @@ def _attrs(pairs):
 def _render_item(it, out, ind):
     pad = "  " * ind
     if it["kind"] in ("key", "multikey"):
+        dt_ = it["datatype"]
+        if dt_ == "string" and it["name"] not in ("+", "*") \
+                and zlib.crc32(it["name"].encode()) % 2:
+            # (string is what a key without a datatype attribute has: half
+            # of the string keys are written without the attribute)
+            dt_ = None
         a = [("name", it["name"]), ("attribute", it["attribute"]),
-             ("datatype", it["datatype"]),
+             ("datatype", dt_),
              ("required", "yes" if it["required"] else None),
              ("handler", it["handler"])]
         d = it["default"]
@@ -354,7 +361,10 @@ def render_types(types, out, ind=1):
             continue
         a = [("name", t["name"]), ("extends", t.get("extends")),
              ("implements", t.get("implements")),
-             ("keytype", t.get("keytype")), ("datatype", t.get("datatype"))]
+             ("keytype", t.get("keytype")), ("datatype", t.get("datatype")),
+             # (an attribute the schema language has had for long and the
+             # implementation reads without acting on it)
+             ("valuetype", t.get("valuetype"))]
         out.append("%s<sectiontype%s>" % (pad, _attrs(a)))
         for it in t["items"]:
             _render_item(it, out, ind + 1)
